@@ -485,12 +485,17 @@ fn emit_fn(out: &mut Value, req: &Value, sig: &Signature, block: &Block, impl_hd
                 if req["slice_body"].as_bool().unwrap_or(false) {
                     let body = match &stmts[0] {
                         Stmt::Expr(Expr::ForLoop(f), _) => Some(f.body.stmts.clone()),
+                        // `let X = { .. };`: the statements of the initialiser block (its tail expression stays the tail)
+                        Stmt::Local(l) => match l.init.as_ref().map(|i| &*i.expr) {
+                            Some(Expr::Block(eb)) if eb.label.is_none() && l.init.as_ref().unwrap().diverge.is_none() => Some(eb.block.stmts.clone()),
+                            _ => None,
+                        },
                         _ => None,
                     };
                     match body {
                         Some(b2) => stmts = b2,
                         None => {
-                            out["error"] = json!("LOST-ANCHOR slice_body: the sliced statement is not a for loop");
+                            out["error"] = json!("LOST-ANCHOR slice_body: the sliced statement is neither a for loop nor a let with a block initialiser");
                             return;
                         }
                     }
@@ -573,6 +578,34 @@ fn emit_fn(out: &mut Value, req: &Value, sig: &Signature, block: &Block, impl_hd
         out["hoisted"] = json!(unparse_items(hoisted));
     }
     n.visit_block_mut(&mut b);
+    // N11d (slices of a `()` function that compute a value): with `slice_opt_return=1` the slice returns `Option<T>`: the value of
+    // its tail expression is `Some(..)`, and every bare `return;` of the enclosing function (which leaves it early) is `return None;`
+    if req["slice_opt_return"].as_bool().unwrap_or(false) {
+        struct OR { bad: bool }
+        impl VisitMut for OR {
+            fn visit_expr_mut(&mut self, e: &mut Expr) {
+                match e {
+                    Expr::Closure(_) | Expr::Async(_) => {}
+                    Expr::Return(r) => {
+                        if r.expr.is_none() { r.expr = Some(Box::new(parse_quote!(None))); } else { self.bad = true; }
+                    }
+                    _ => visit_mut::visit_expr_mut(self, e),
+                }
+            }
+            fn visit_item_mut(&mut self, _: &mut Item) {}
+        }
+        let mut or = OR { bad: false };
+        or.visit_block_mut(&mut b);
+        let tail_ok = match b.stmts.last_mut() {
+            Some(Stmt::Expr(e, None)) => { let old = e.clone(); *e = parse_quote!(Some(#old)); true }
+            _ => false,
+        };
+        if or.bad || !tail_ok {
+            out["error"] = json!("UNSUPPORTED slice_opt_return: the slice has a `return <value>` or no tail expression");
+            return;
+        }
+        n.log("N11d-slice-option-return", sig.ident.span());
+    }
     n.mark_loops(&mut b);
     out["body"] = json!(print_block(&b));
     out["loops"] = json!(n.loops);
